@@ -1,5 +1,7 @@
 """C05 - point-to-triangle distance kernel."""
+import os
 import runner as R
+from checks.C15 import tsan_reports
 from runner import Inv, Merged
 
 ID = "C05"
@@ -21,15 +23,27 @@ def run(tier, seed, t0):
     n = T(tier, 400000, 50000000)
     R.run_inv(Inv("kernel", n, "plain", timeout=T(tier, 600, 7200)), seed, wd, m)
     R.run_inv(Inv("kernel", T(tier, 50000, 2000000), "asan", timeout=T(tier, 600, 7200), first=n), seed, wd, m)
+    # concurrent evaluation (the contact phase calls the kernel from every thread): bitwise equal to the call made alone
+    R.run_inv(Inv("kernel_par", T(tier, 12, 400), "plain", threads=16, shards=1, timeout=T(tier, 600, 7200), tag="kernel_par/plain/t16"), seed, wd, m)
+    tenv = {"TSAN_OPTIONS": "halt_on_error=0:exitcode=0:log_path=%s:history_size=4:external_symbolizer_path=%s" % (os.path.join(wd, "tsan"), R.SYMBOLIZER)}
+    R.run_inv(Inv("kernel_par", T(tier, 2, 40), "tsan", threads=8, shards=1, timeout=T(tier, 900, 7200), tag="kernel_par/tsan/t8", args=["--batch=3000", "--rounds=2"], env=tenv, first=1000), seed, wd, m)
+    reps, total, norepo = tsan_reports(wd, R.builder.repo_dir())
+    m.add_bins({"tsan_reports_total": total, "tsan_distinct_keys": len(reps)})
+    for key, (cnt, sample) in sorted(reps.items()):
+        m.violations.append({"key": "c05." + key, "msg": "%d reports, first:\n%s" % (cnt, sample), "obs": {"reports": cnt}, "inv": "tsan",
+                             "replay": {"custom": True, "flavour": "tsan", "argv": ["python3", "check.py", "C05", "--tier", tier, "--seed", str(seed)], "note": "race reports vary from run to run: re-run the check"}})
     regions = ["interior", "edge_ab", "edge_bc", "edge_ca", "vertex_a", "vertex_b", "vertex_c"]
     floors = {"cases_in_region_" + r: (m.bins.get("region:" + r, 0), 0.01 * m.evaluations) for r in regions}
+    floors["interior_cases_with_h_over_L_below_1e-5"] = (m.bins.get("interior_h_over_L_below_1e-5", 0), 0.002 * m.evaluations)
+    floors["concurrent_calls_compared"] = (m.bins.get("concurrent_calls_compared", 0), T(tier, 1e6, 4e7))
     return R.finish("C05", tier, seed, m,
                     "query point constructed per Voronoi region (7 regions incl. region boundaries, both sides of the plane) x distance "
                     "class (on the triangle, 1e-9..1e-4, comparable, far) x triangle aspect 1..1e3 x scale 1e-7..1e2 x offset from origin "
                     "0..1e3 diameters x random rigid embedding; a case is non-trivial when the triangle is non-degenerate "
                     "(area > 1e-7 diam^2); distinct = distinct input coordinate hashes; bins count the region as classified by the oracle",
                     t0, ["own long-double closest-point oracle (plane projection + 3 clamped segment projections) is correct",
-                         "tolerance for the closest point is max(1e-9 L, 256 eps cond diam) with cond=(D/diam)^2 (diam^2/2A)^2: forward error of any dot-product evaluation"],
+                         "tolerance for the closest point is max(1e-9 L, 256 eps cond diam) with cond=(D/diam)^2 (diam^2/2A)^2: forward error of any dot-product evaluation",
+                         "tolerance for the squared distance is min(1e-9 max(d2,L^2), 2 h dlt + dlt^2 + 1e-12 d2) with dlt = 256 eps cond diam + 16 eps M: a designated point within dlt of the closest point, formed in absolute coordinates of magnitude M"],
                     floors=floors)
 
 
